@@ -202,6 +202,9 @@ Inductive top :=
          executing the script *)
 | TAllowC (i : nat) (now_ms : Z) (n : Z) (rescue : bool)
       (* AllowNCtx with a context that is already cancelled: the command is never sent *)
+| TPong (i : nat)
+      (* the store HAD answered the monitor's Ping (while it was reachable) and only now the
+         monitor goes on: it stores redisAlive = 1 and leaves, whatever the store's state is now *)
 | TAllowLate (i : nat) (now_ms : Z) (n : Z) (rescue : bool) (brk : bool).
       (* CONCURRENT CALLS ON ONE INSTANCE: a call that read redisAlive = 1 before a concurrent call
          of the same instance switched it off, and sends its command now.  (reserveN = load the
@@ -289,6 +292,13 @@ Definition tstep (c : tcfg) (s : tstate) (o : top) : tstate * tobs :=
                     else TR rescue false false)
     | None => (s, TU)
     end
+  | TPong i =>
+    match nth_error (tinsts s) i with
+    | Some t => if monitor t
+                then (mkTS (tstore s) (tdown s) (set_nth i (mkT true false) (tinsts s)), TU)
+                else (s, TU)
+    | None => (s, TU)
+    end
   | TAllowLate i now n rescue brk =>
     match nth_error (tinsts s) i with
     | Some t => let '(st', t', r) := reserve_late c t now n rescue (tstore s) (tdown s || negb brk)%bool in
@@ -360,6 +370,13 @@ Definition sp_tstep (c : tcfg) (a : tspec) (o : top) : tspec * tobs :=
     match nth_error (sp_insts a) i with
     | Some t => (a, if alive t then TR false true false    (* errorx.In(err, ..., context.Canceled): refused, no fallback *)
                     else TR rescue false false)
+    | None => (a, TU)
+    end
+  | TPong i =>
+    match nth_error (sp_insts a) i with
+    | Some t => if monitor t
+                then (mkSp (sp_bucket a) (sp_clock a) (sp_tdown a) (set_nth i (mkT true false) (sp_insts a)), TU)
+                else (a, TU)
     | None => (a, TU)
     end
   | TAllowLate i now n rescue brk =>
